@@ -88,6 +88,15 @@ def judge(case):
                 break
         if msgs:
             return msgs
+        # the molecules handed out by the reader belong to the caller: moving them must not change what a later read of
+        # the same (unchanged) file returns - it is read centred at its centre of mass again
+        m1.atoms.translate([1.5, -2.0, 0.5])
+        m2.atoms.translate([0.0, 0.0, 6.0])
+        again1, again2 = read_molecule(p1), read_molecule(p2)
+        if np.abs(np.array(again1.atoms.positions, dtype=float) - ref1).max() > ATOL or \
+                np.abs(np.array(again2.atoms.positions, dtype=float) - ref2).max() > ATOL:
+            return ["reading the same file again after the first returned molecule was moved gives a molecule that is not the "
+                    "centred file geometry"]
         # the generator interface gives the same frames, in row order
         with quiet():
             pt2 = Pseudotrajectory(read_molecule(p1), read_molecule(p2), arr)
